@@ -171,6 +171,11 @@ pub struct Mix {
     pub permute_pairs: bool,
     /// also validate every delivery alone with an immediate provider (C14's control twin)
     pub control_twin: bool,
+    /// which parts intermediaries may re-spell
+    pub mask: NoiseMask,
+    /// also deliver the message as it was issued (canonical spelling, home node, server clock at
+    /// the request instant, immediate provider): the baseline that isolates the fault under study
+    pub baseline: bool,
 }
 
 impl Mix {
@@ -220,6 +225,8 @@ impl Mix {
             },
             permute_pairs: true,
             control_twin: false,
+            mask: NOISE_ALL,
+            baseline: false,
         }
     }
 }
@@ -239,9 +246,13 @@ pub struct DeliveryCtx<'a> {
     pub events: &'a [libi::Event],
     pub logs: &'a [crate::logger::Rec],
     pub control: Option<&'a ValOut>,
+    /// outcome of the untouched, canonically spelled original at its home node (None = not run)
+    pub baseline: Option<&'a ValOut>,
 }
 
 pub struct Planned {
+    /// the message as issued, before the network touched it
+    pub origin: Option<Message>,
     pub msg: Message,
     pub node_ix: usize,
     pub now_ns: i128,
@@ -433,6 +444,7 @@ pub fn run_world(t: &mut Tape, mix: &Mix, judge: Judge) -> RunOut {
                 0
             };
             let wire = render(&m, t, &RenderOpts {
+                mask: mix.mask,
                 noise,
                 s3: node.cfg.s3,
                 permute_pairs: mix.permute_pairs,
@@ -440,6 +452,7 @@ pub fn run_world(t: &mut Tape, mix: &Mix, judge: Judge) -> RunOut {
             let script = draw_script(t, mix, &mut out);
             let task = t.below(ntasks);
             planned.push(Planned {
+                origin: Some(m0.clone()),
                 msg: m,
                 node_ix,
                 now_ns,
@@ -566,6 +579,20 @@ pub fn execute_and_judge(t: &mut Tape, mix: &Mix, accounts: &[Account], nodes: &
             continue;
         }
         let my_events: Vec<libi::Event> = events.iter().filter(|e| e.val == vi).cloned().collect();
+        let baseline = match (&p.origin, mix.baseline) {
+            (Some(o0), true) => {
+                let home = &nodes[o0.home_node.min(nodes.len() - 1)];
+                let mut t0 = Tape::replay(vec![]);
+                let w0 = render(o0, &mut t0, &RenderOpts {
+                    mask: NOISE_ALL,
+                    noise: 0,
+                    s3: home.cfg.s3,
+                    permute_pairs: false,
+                });
+                w0.to_request().ok().map(|req| libi::validate_control(req, home, o0.auth.instant_ns, accounts, &ProvScript::default(), cache_level))
+            }
+            _ => None,
+        };
         let control = if mix.control_twin && matches!(o, ValOut::Ok(_) | ValOut::Err(_)) {
             p.wire.to_request().ok().map(|req| libi::validate_control(req, node, p.now_ns, accounts, &p.script, cache_level))
         } else {
@@ -586,6 +613,7 @@ pub fn execute_and_judge(t: &mut Tape, mix: &Mix, accounts: &[Account], nodes: &
             events: &my_events,
             logs: &logs,
             control: control.as_ref(),
+            baseline: baseline.as_ref(),
         };
         common_probes(&cx, out);
         judge(&cx, out);
